@@ -6825,10 +6825,19 @@ impl Machine {
         let mut parser = Parser::new(chars, &mut self.machine_st);
         let op_dir = CompositeOpDir::new(&self.indices.op_dir, None);
 
-        let term_write_result = parser
-            .read_term(&op_dir, Tokens::Default)
-            .map_err(|err| error_after_read_term(err, 0, &parser))
-            .and_then(|term| write_term_to_heap(&term, &mut self.machine_st.heap));
+        // as in reading from a stream: layout and comments in front of the
+        // end of the text are not the beginning of a term.
+        let at_end = devour_whitespace(&mut parser.lexer)
+            .map(|at_end| at_end || parser.lexer.lookahead_char().is_err());
+
+        let term_write_result = match at_end {
+            Ok(true) => Err(CompilationError::from(ParserError::unexpected_eof())),
+            Ok(false) => parser
+                .read_term(&op_dir, Tokens::Default)
+                .map_err(|err| error_after_read_term(err, 0, &parser))
+                .and_then(|term| write_term_to_heap(&term, &mut self.machine_st.heap)),
+            Err(err) => Err(CompilationError::from(err)),
+        };
 
         match term_write_result {
             Ok(term_write_result) => Ok(Some(term_write_result)),
